@@ -27,16 +27,22 @@ def build_args(roots, mode, m, n, depth_first, rng):
     a = ["find"]
     flag = mode[0] if mode[0] in "PHL" else None
     if flag:
-        if flag != "P" or rng.random() < 0.5 or mode != "P":
+        if rng.random() < 0.25:
+            # earlier -P/-H/-L (and the ignored -O levels) are overridden by the last one given
+            for _ in range(rng.choice([1, 1, 2])):
+                a.append(rng.choice(["-P", "-H", "-L", "-O1", "-O3"]))
+            a.append("-" + flag)
+        elif flag != "P" or rng.random() < 0.5 or mode != "P":
             a.append("-" + flag)
     a += roots
     opts = []
     if mode.endswith("follow"):
         opts.append(["-follow"])
+    # a depth option given twice: the later value is the one in force
     if m is not None:
-        opts.append(["-mindepth", str(m)])
+        opts.append((["-mindepth", str(rng.randint(0, 6))] if rng.random() < 0.12 else []) + ["-mindepth", str(m)])
     if n is not None:
-        opts.append(["-maxdepth", str(n)])
+        opts.append((["-maxdepth", str(rng.randint(0, 6))] if rng.random() < 0.12 else []) + ["-maxdepth", str(n)])
     if depth_first:
         opts.append([rng.choice(["-depth", "-d"])])
     rng.shuffle(opts)
@@ -56,6 +62,11 @@ def judge(st, cfg, cwd, code, out, err, panic, vehicle, deny=()):
     if out and not out.endswith(b"\0"):
         st.violate("unterminated-output", None, {"args": args, "out": out[-80:]}, {"args": args})
     st.inc("evaluations")
+    lead = [x for x in args[1:4] if x in ("-P", "-H", "-L")]
+    if len(lead) > 1:
+        st.inc("runs_with_overridden_follow_option")
+    if args.count("-maxdepth") > 1 or args.count("-mindepth") > 1:
+        st.inc("runs_with_repeated_depth_option")
     st.inc("entries_compared", sum(exp.values()))
     st.add("distinct", (mode, m, n, df, len(roots), tuple(sorted(exp))[:6], len(exp)))
     st.add("config_tuples", (mode, m, n, df))
@@ -191,7 +202,8 @@ def self_check(base):
 
 def run(ctx):
     ctx.rule = ("random trees with links (to files, directories, dangling, ancestor, outside, self, chains), fifos/sockets; "
-                "1-3 starting points incl. links, files, missing; follow mode x (mindepth,maxdepth) incl. min>max x -depth; "
+                "1-3 starting points incl. links, files, missing; follow mode (also given after other, overridden -P/-H/-L options) x "
+                "(mindepth,maxdepth) incl. min>max and options given twice x -depth; "
                 "every 5th tree has a mode-000 directory and is walked as uid 65534; distinct = (mode,m,n,depth,roots,expected set)")
     ctx.assumptions = ["reference walk lib/refwalk.py (self-checked)", "tmpfs", "cycle-closing links and unreadable directories themselves are optional in the output"]
     try:
@@ -203,5 +215,5 @@ def run(ctx):
     jobs = [(k, ntrees // nw, ctx.scale(10, 16), ctx.seed, ctx.scale(40, 300), 1) for k in range(nw)]
     ctx.pmap(worker, jobs)
     for key in ("runs_min_gt_max", "runs_with_error:loop", "runs_with_error:unreadable", "runs_with_error:missing",
-                "trees_with_links", "binary_runs"):
+                "trees_with_links", "binary_runs", "runs_with_overridden_follow_option", "runs_with_repeated_depth_option"):
         ctx.require(key, 3)
